@@ -95,16 +95,34 @@ impl ClientRequestTcpStream {
     ) -> Result<ClientResponseHandle<'_>, ClientError> {
         let buf_ptr = buf.as_mut_ptr() as *mut u8;
 
-        // safety: we're gonna read n<=MAX_RESPONSE_HEAD bytes, and only use those
-        let buf = unsafe { std::slice::from_raw_parts_mut(buf_ptr, MAX_RESPONSE_HEAD) };
+        // Read until the response head is complete: it may arrive in several segments.
+        let mut filled = 0;
+        let (buf, res) = loop {
+            if filled == MAX_RESPONSE_HEAD {
+                // head does not fit into the buffer
+                return Err(ClientError::ParsingFailure(HttpParsingError::UnexpectedEof));
+            }
 
-        let n = match self.stream.read(buf) {
-            Ok(0) => return Err(ClientError::UnexpectedEof),
-            Ok(n) => n,
-            Err(e) => return Err(ClientError::ReadFailure(e)),
+            // safety: the tail [filled..MAX_RESPONSE_HEAD] is in bounds; read() initializes what it returns
+            let tail = unsafe {
+                std::slice::from_raw_parts_mut(buf_ptr.add(filled), MAX_RESPONSE_HEAD - filled)
+            };
+            let n = match self.stream.read(tail) {
+                Ok(0) => return Err(ClientError::UnexpectedEof),
+                Ok(n) => n,
+                Err(e) => return Err(ClientError::ReadFailure(e)),
+            };
+            filled += n;
+
+            // safety: only the initialized prefix [..filled] is used
+            let buf = unsafe { std::slice::from_raw_parts(buf_ptr as *const u8, filled) };
+            match Response::parse(buf) {
+                Ok(res) => break (buf, res),
+                Err(HttpParsingError::UnexpectedEof) => continue, // need more bytes
+                Err(e) => return Err(ClientError::ParsingFailure(e)),
+            }
         };
-        let res = Response::parse(&buf[..n]).map_err(ClientError::ParsingFailure)?;
-        let body = BodyReader::from_response(&buf[res.buf_offset..n], self.stream, &res.headers);
+        let body = BodyReader::from_response(&buf[res.buf_offset..], self.stream, &res.headers);
 
         Ok(ClientResponseHandle {
             headers: res.headers,
